@@ -162,13 +162,13 @@ SPEC = dict(
          "(2) encode: EVERY Unicode scalar value (1,112,064) x 22 encodings: canTranscodeTo, transcodeTo (throw and replacement mode), decode(encode(c))==c, source blocks of 1..8 units "
          "ending inside the surrogate pair, output blocks of 1..8 bytes (quick: block variants and exception mode for every BMP code point and every 16th/64th supplementary one; thorough: all); reference = arithmetic for UTF-8/16/32, ICU ucnv (STOP callbacks, no fallbacks, round trip required) for code pages. "
          "(3) UTF-16LE/BE: 32 (quick) / all 65536 (thorough) first units x ALL 65536 second units, odd byte counts, output blocks 1..8. "
-         "(4) UCS-4LE/BE: one call per 32-bit value: every value < 0x120000 (quick) / < 0x1000000 (thorough) plus the 20^4 / 83^4-class byte product. "
+         "(4) UCS-4LE/BE: one call per 32-bit value: every value < 0x120000 (quick) / < 0x1000000 (thorough) plus the byte-class^4 product (20 classes quick, 91 thorough). "
          "(5) every byte of 11 single-byte encodings and 52 alias spellings; every 1- and 2-byte (and incomplete-prefix 3/4-byte) sequence of 6 ICU multi-byte encodings. "
          "(6) split: every word of length <= 3 (quick) / 4 (thorough) over 8 characters (1..4 bytes, BMP and supplementary) x 22 encodings x every split offset x every maxChars, every "
          "prefix through TranscodeFromStr, TranscodeToStr, source blocks 1..4 x output blocks 1..8. "
          "Document level: 22 documents (two larger than every reader buffer) x 22 encodings x BOM {absent,present} x declaration {absent, canonical, alias spellings, generic family name, "
-         "contradictory family} -> SAX2 dump equal to the UTF-8 baseline dump or fatal; legal variants must succeed; contradictions must be reported; 75 illegal/over-long/surrogate/"
-         "out-of-range/truncated sequences x 8 syntactic positions must be fatal; UTF-16 documents whose text is a unit pair (18 first units x 266 / 65536 second units x LE/BE). "
+         "contradictory family} -> SAX2 dump equal to the UTF-8 baseline dump or fatal; legal variants must succeed; contradictions must be reported; 49 illegal/over-long/surrogate/"
+         "out-of-range sequences x 8 syntactic positions plus 19 truncated tails at end of input must be fatal; UTF-16 documents whose text is a unit pair (18 first units x 182 / 65536 second units x LE/BE). "
          "Non-trivial = cases that are not plain ASCII pass-through (see coverage parts).",
     trusted_base=["hand-written Unicode Table 3-7 DFA and UTF-16/UTF-32 arithmetic (drv/c05_ref.hpp)", "ICU 72 ucnv_* called directly as code-page reference (independent of Xerces' intrinsic "
                   "tables; for ICU-provided encodings it is independent of Xerces' ICUTranscoder wrapper, not of the mapping tables)", "Python 3.11 codecs (latin_1, ascii, cp1252, cp037, cp1140) as "
